@@ -157,6 +157,8 @@ StructClauses(f, c, scriptsConfigured, evs) ==
          \cup (IF \E i \in 1..Len(oe) : oe[i].name = "data" /\ ~oe[i].eoa THEN {"C04.apk_full_data_tar"} ELSE {})
          \cup (IF \E i \in 1..Len(oe) : oe[i].name = "control" /\ oe[i].first # ".PKGINFO" THEN {"C04.apk_pkginfo_first"} ELSE {})
          \cup (IF \E i \in 1..Len(oe) : oe[i].rawlen % 512 # 0 THEN {"C04.apk_segment_aligned"} ELSE {})
+         \* the reader sees the concatenation of the segments as one tar stream: every member of every segment, no stray block
+         \cup (IF HasStruct(evs, "apk_whole_stream") /\ StructVal(evs, "apk_whole_stream") # "ok" THEN {"C04.apk_concatenation_is_one_tar"} ELSE {})
          \cup TarNameClauses(f, TarSeq(evs, "data"), FALSE, {})
     [] f = "archlinux" ->
          LET t == TarSeq(evs, "data")
